@@ -38,7 +38,7 @@ F_INSTR = {
     "map_name": "#[map(x)]", "map_idx": "#[map(0)]", "map_expr": "#[map(g([~.x()], {~}))]", "ghost_d": "#[ghost({gh()})]", "ghost_nd": "#[ghost]", "child": "#[child(p)]",
     "parent0": "#[parent]", "parentp": "#[parent(a)]", "as_type": "#[o2o(as_type(i64))]", "repeat": "#[o2o(repeat(permeate()))]", "literal": "#[literal(1)]",
 }
-TEXTRA = {"-": "", "cp_named": "#[child_parents(p: P)]", "cp_unit": "#[child_parents(p: P as Unit)]", "cp_struct": "#[child_parents(p: P as {})]",
+TEXTRA = {"-": "", "cp_named": "#[child_parents(p: P)]", "cp_unit": "#[child_parents(p: P as Unit)]", "cp_struct": "#[child_parents(p: P as {})]", "cp_generic": "#[child_parents(p: m::P::<i32>, p.q: Q::<u8> as ())]",
           "ghosts_path": "#[ghosts(p@x: {1})]", "ghosts_destruct": "#[ghosts(W{a}: {1})]", "ghosts_idx": "#[ghosts(0: {1})]"}
 TPARAM = {"-": "", "ret": " | return ret(@)", "upd": " | ..upd([@][0])", "dflt": " | _ => dflt(@)", "vars": " | vars(v: {1})"}
 
